@@ -102,7 +102,22 @@ func c10Run(c *vh.Ctx, r *vh.Rng, k int, table []fertRow, root string, acc *c10a
 		"fertiliser_lines": fertAll, "irrigation_lines": irrAll, "tillage_lines": tilAll, "fertilisation_factor_pct": pct, "file_layout": sch.Layout, "file_style": sch.Style,
 		"how": "proj.Project JSON: write with Project.Write + WriteManagementConf, run with proj.Run (harness/cmd/check/c10.go c10Run); day numbers are days since 31.12.1900"}
 	slots := len(fertOwn) + len(irrOwn) + len(tilOwn) + len(p.Rot) + 6
-	tr, err := runTraced(c, root, p, slots, func(root string) error { return p.WriteScheduleStyle(root, sch.Style) })
+	tr, err := runTraced(c, root, p, slots, func(root string) error {
+		if err := p.WriteScheduleStyle(root, sch.Style); err != nil {
+			return err
+		}
+		if k%7 == 3 {
+			c.Count("files:without-end-line")
+			if err := p.StripScheduleEnd(root); err != nil { // schedule files that stop without the "end" line
+				return err
+			}
+		}
+		if len(tilAll) == 0 && k%2 == 1 {
+			c.Count("files:no-tillage-file")
+			return p.RemoveTillageFile(root) // no tillage schedule at all (the file is optional)
+		}
+		return nil
+	})
 	if err != nil {
 		c.Violate("search", "harness:write", err.Error(), replay)
 		return
